@@ -125,6 +125,23 @@ def bmm_const_channelwise(src, per_channel_weights):
   return False
 
 
+def int8_mul_overflowing_multiplier(mo):
+  """Mechanism of the finding KF-MUL-INT8-MULTIPLIER-ABOVE-2, read off the output model: an int8 MUL whose requantization multiplier
+  input_scale_1 * input_scale_2 / output_scale exceeds 2 (the product of two int8 codes times the multiplier then leaves the int16
+  range the optimized LiteRT kernel works in; the reference kernel is right).  It takes an output range far smaller than the
+  product of the input ranges: a fused RELU6 / RELU_N1_TO_1 on large inputs."""
+  for sg in mo.subgraphs:
+    for op in sg.operators:
+      if mo.operatorCodes[op.opcodeIndex].builtinCode != models.BO.MUL:
+        continue
+      ts = [sg.tensors[int(i)] for i in list(op.inputs)[:2] + list(op.outputs)[:1]]
+      if any(t.type != TT.INT8 or t.quantization is None or t.quantization.scale is None or len(t.quantization.scale) != 1 for t in ts):
+        continue
+      if float(ts[0].quantization.scale[0]) * float(ts[1].quantization.scale[0]) / float(ts[2].quantization.scale[0]) > 2.0:
+        return True
+  return False
+
+
 def bias_saturated(mo):
   """A quantized bias sits at the INT32/INT64 limit: bias/(input_scale*weight_scale) does not fit (tiny weights or tiny input
   range with an O(1) bias).  C05's statement permits this; the output error is then unbounded and not C07's to judge."""
@@ -183,7 +200,8 @@ def evaluate(ctx, spec, src, run, sig, x, ref, weight_bits, act_bits, per_channe
     ctx.count('bias_saturated_not_judged')
     return True
   feats = {'act_bits': act_bits, 'weight_bits': weight_bits,
-           'bmm_const_rhs_channelwise': bmm_const_channelwise(src, per_channel_weights)}
+           'bmm_const_rhs_channelwise': bmm_const_channelwise(src, per_channel_weights),
+           'int8_mul_multiplier_above_2': int8_mul_overflowing_multiplier(mo)}
   state = {'all_q': True}
 
   def go():
@@ -270,6 +288,8 @@ def evaluate(ctx, spec, src, run, sig, x, ref, weight_bits, act_bits, per_channe
         fb = first_bad_operator(src, f_tens, q_tens, A)
         ctx.violation('output_far_from_float_model' if err > bound else 'output_constant_while_float_output_is_not',
                       dict(f, output_constant=const,
+                           local_culprit_ops=(None if state.get('local') is None or not state['local'].available else
+                                              sorted({c.get('op') or c.get('tensor_of') for c in state['local'].culprits})),
                            output_equals_zero_point=bool(const and zp is not None and int(v.reshape(-1)[0]) == zp),
                            first_bad_operator=fb, bmm_output_pinned_to_zero_point=bmm_output_pinned(src, f_tens, q_tens)),
                       dict(base, output=k, err=err, bound=bound, A=A, step=step, err_steps=err / step if step else None, spread=spread,
